@@ -215,7 +215,7 @@ fn main() {
             }
             generic::c05_isolated(&groups, tier.pick(40.0, 1500.0), &mut report);
             report.traces = report.evaluations;
-            "every document of the generated families x every subject x {one-shot, byte-wise}, each (subject, document) unit run in an isolated single-threaded worker process: the run must return a value (no panic incl. overflow / debug assertion in the checked build, no abort, no stack overflow, no hang), within 2 s, with peak requested heap <= 64 x consumed bytes + 2 MiB + 4 chunks (counting allocator, per thread). Non-trivial: every case (each is a distinct input x subject). Repetition family: one construct (section entry, justice size, symbol, comment line, gate, gate chain that the renumbering has to descend) repeated 100 000 - 300 000 times; the quick tier runs it in the UNOPTIMISED profile as well (opt-level 0: recursion that an optimiser turns into a loop overflows the stack only there)".into()
+            "every document of the generated families x every subject x {one-shot, byte-wise}, each (subject, document) unit run in an isolated single-threaded worker process: the run must return a value (no panic incl. overflow / debug assertion in the checked build, no abort, no stack overflow, no hang), within 2 s, with peak requested heap <= 64 x consumed bytes (256 x for the subjects that also renumber what was parsed) + 2 MiB + 4 chunks (counting allocator, per thread). Non-trivial: every case (each is a distinct input x subject). Repetition family: one construct (section entry, justice size, symbol, comment line, gate, gate chain that the renumbering has to descend) repeated 100 000 - 300 000 times; the quick tier runs it in the UNOPTIMISED profile as well (opt-level 0: recursion that an optimiser turns into a loop overflows the stack only there)".into()
         }
         "C08" => {
             for kind in FORMATS {
